@@ -12,18 +12,59 @@
           verifiers; the reported algorithm is the requested one.
   * C20 — a failing key, a failing hash, or an (r, s) that does not fit make the signer fail.
   * C03 — the verifier's verdict is the primitive's verdict on exactly (digest, r, s).
+
+  The ECDSA digest entry points take the size of the algorithm's hash (`hs : Option Nat`, `none` =
+  hash not available, no check) and refuse a digest of any other length before the key or the
+  signature is looked at (`checkECDSADigest`).  `C17.HashSized H hs` — the hash `H` produces digests
+  of that size — is the hypothesis under which the check is inert on the message entry points.
 -/
 import CoseModel.Signers
 import CoseProofs.Props.C01
 import CoseProofs.Props.C16
 open CoseModel
 
+namespace C17
+
+/-- the hash function produces digests of the size the algorithm names (true of every real hash;
+    vacuous when the hash is not available, `hs = none`) -/
+def HashSized (H : HashFn) (hs : Option Nat) : Prop :=
+  ∀ c d, H c = .ok d → ∀ n, hs = some n → d.length = n
+
+theorem checkDigest_iff (hs : Option Nat) (d : Bytes) :
+    checkECDSADigest hs d = true ↔ ∀ n, hs = some n → d.length = n := by
+  cases hs with
+  | none => simp [checkECDSADigest]
+  | some m => simp [checkECDSADigest]
+
+theorem checkDigest_false_iff (hs : Option Nat) (d : Bytes) :
+    checkECDSADigest hs d = false ↔ ∃ n, hs = some n ∧ d.length ≠ n := by
+  cases hs with
+  | none => simp [checkECDSADigest]
+  | some m => simp [checkECDSADigest]
+
+theorem checkDigest_of_sized (H : HashFn) (hs : Option Nat) (hz : HashSized H hs) (c d : Bytes)
+    (hH : H c = .ok d) : checkECDSADigest hs d = true :=
+  (checkDigest_iff hs d).mpr (hz c d hH)
+
+/-- the checked entry point is the check followed by the unchecked one (`none`) -/
+theorem ecdsaSignDigest_eq (hs : Option Nat) (k : EcdsaKey) (d : Bytes) :
+    ecdsaSignDigest hs k d =
+      if checkECDSADigest hs d = false then .err .other else ecdsaSignDigest none k d := by
+  rfl
+
+theorem ecdsaVerifyDigest_eq (hs : Option Nat) (k : EcdsaKey) (d sig : Bytes) :
+    ecdsaVerifyDigest hs k d sig =
+      if checkECDSADigest hs d = false then .err .verification else ecdsaVerifyDigest none k d sig := by
+  rfl
+
+end C17
+
 namespace C16
 
 /-- whatever the key returns — any integers, from any crypto.Signer — what the ECDSA signer
     returns on success is exactly 2n bytes, r then s, big-endian, left-padded -/
-theorem ecdsa_signer_fixed_width (H : HashFn) (k : EcdsaKey) (content sig : Bytes)
-    (h : ecdsaSign H k content = .ok sig) :
+theorem ecdsa_signer_fixed_width (H : HashFn) (hs : Option Nat) (k : EcdsaKey) (content sig : Bytes)
+    (h : ecdsaSign H hs k content = .ok sig) :
     sig.length = 2 * k.n ∧ ∃ d r s, H content = .ok d ∧ k.sign d = .ok (r, s) ∧
       0 ≤ r ∧ 0 ≤ s ∧ sig.take k.n = fillBytes k.n r.toNat ∧ sig.drop k.n = fillBytes k.n s.toNat := by
   unfold ecdsaSign at h
@@ -31,11 +72,15 @@ theorem ecdsa_signer_fixed_width (H : HashFn) (k : EcdsaKey) (content sig : Byte
   | ok d =>
     rw [hH] at h
     simp only at h
+    rw [C17.ecdsaSignDigest_eq] at h
+    split at h
+    · cases h
     unfold ecdsaSignDigest at h
-    cases hs : k.sign d with
+    simp only [checkECDSADigest, Bool.true_eq_false, if_false] at h
+    cases hsg : k.sign d with
     | ok p =>
       obtain ⟨r, s⟩ := p
-      rw [hs] at h
+      rw [hsg] at h
       simp only at h
       cases he : encodeECDSASignature k.n r s with
       | none => rw [he] at h; cases h
@@ -45,18 +90,18 @@ theorem ecdsa_signer_fixed_width (H : HashFn) (k : EcdsaKey) (content sig : Byte
         subst h
         have hw := encode_fixed_width k.n r s sg he
         have hok := (encode_ok_iff k.n r s).mp (by simp [he])
-        exact ⟨hw.1, d, r, s, rfl, hs, hok.1.1, hok.2.1, hw.2.1, hw.2.2⟩
-    | err e => rw [hs] at h; cases h
-    | panic => rw [hs] at h; cases h
-    | unmodelled => rw [hs] at h; cases h
+        exact ⟨hw.1, d, r, s, rfl, hsg, hok.1.1, hok.2.1, hw.2.1, hw.2.2⟩
+    | err e => rw [hsg] at h; cases h
+    | panic => rw [hsg] at h; cases h
+    | unmodelled => rw [hsg] at h; cases h
   | err e => rw [hH] at h; cases h
   | panic => rw [hH] at h; cases h
   | unmodelled => rw [hH] at h; cases h
 
 /-- the ECDSA verifier accepts only 2n-byte strings, and only if the primitive accepts the two
     halves read as big-endian integers under the digest of the content -/
-theorem ecdsa_verifier_strict (H : HashFn) (k : EcdsaKey) (content sig : Bytes)
-    (h : ecdsaVerify H k content sig = .ok ()) :
+theorem ecdsa_verifier_strict (H : HashFn) (hs : Option Nat) (k : EcdsaKey) (content sig : Bytes)
+    (h : ecdsaVerify H hs k content sig = .ok ()) :
     sig.length = 2 * k.n ∧ ∃ d, H content = .ok d ∧
       k.verify d (os2ip (sig.take k.n)) (os2ip (sig.drop k.n)) = true := by
   unfold ecdsaVerify at h
@@ -64,7 +109,11 @@ theorem ecdsa_verifier_strict (H : HashFn) (k : EcdsaKey) (content sig : Bytes)
   | ok d =>
     rw [hH] at h
     simp only at h
+    rw [C17.ecdsaVerifyDigest_eq] at h
+    split at h
+    · cases h
     unfold ecdsaVerifyDigest at h
+    simp only [checkECDSADigest, Bool.true_eq_false, if_false] at h
     cases hd : decodeECDSASignature k.n sig with
     | none => rw [hd] at h; cases h
     | some p =>
@@ -88,28 +137,33 @@ theorem ecdsa_verifier_strict (H : HashFn) (k : EcdsaKey) (content sig : Bytes)
 
 /-- DER, halves with stripped or extra zeros, one byte more or less: refused before the primitive
     is consulted, with the verification error -/
-theorem ecdsa_wrong_length_refused (H : HashFn) (k : EcdsaKey) (content sig d : Bytes)
+theorem ecdsa_wrong_length_refused (H : HashFn) (hs : Option Nat) (k : EcdsaKey) (content sig d : Bytes)
     (hH : H content = .ok d) (hl : sig.length ≠ 2 * k.n) :
-    ecdsaVerify H k content sig = .err .verification := by
+    ecdsaVerify H hs k content sig = .err .verification := by
   unfold ecdsaVerify ecdsaVerifyDigest
   rw [hH]
-  simp only [wrong_length_rejected k.n sig hl]
+  simp only [wrong_length_rejected k.n sig hl, ite_self]
 
 /-- the verdict on a produced signature is the primitive's verdict on the (r, s) it produced -/
-theorem ecdsa_verify_of_sign (H : HashFn) (k : EcdsaKey) (content sig : Bytes)
-    (h : ecdsaSign H k content = .ok sig) :
+theorem ecdsa_verify_of_sign (H : HashFn) (hs : Option Nat) (k : EcdsaKey) (content sig : Bytes)
+    (h : ecdsaSign H hs k content = .ok sig) :
     ∃ d r s, H content = .ok d ∧ k.sign d = .ok (r, s) ∧ 0 ≤ r ∧ 0 ≤ s ∧
-      ecdsaVerify H k content sig = if k.verify d r.toNat s.toNat then .ok () else .err .verification := by
+      ecdsaVerify H hs k content sig = if k.verify d r.toNat s.toNat then .ok () else .err .verification := by
   unfold ecdsaSign at h
   cases hH : H content with
   | ok d =>
     rw [hH] at h
     simp only at h
+    rw [C17.ecdsaSignDigest_eq] at h
+    split at h
+    · cases h
+    rename_i hck
     unfold ecdsaSignDigest at h
-    cases hs : k.sign d with
+    simp only [checkECDSADigest, Bool.true_eq_false, if_false] at h
+    cases hsg : k.sign d with
     | ok p =>
       obtain ⟨r, s⟩ := p
-      rw [hs] at h
+      rw [hsg] at h
       simp only at h
       cases he : encodeECDSASignature k.n r s with
       | none => rw [he] at h; cases h
@@ -118,13 +172,16 @@ theorem ecdsa_verify_of_sign (H : HashFn) (k : EcdsaKey) (content sig : Bytes)
         simp only [Out.ok.injEq] at h
         subst h
         have hok := (encode_ok_iff k.n r s).mp (by simp [he])
-        refine ⟨d, r, s, rfl, hs, hok.1.1, hok.2.1, ?_⟩
-        unfold ecdsaVerify ecdsaVerifyDigest
+        refine ⟨d, r, s, rfl, hsg, hok.1.1, hok.2.1, ?_⟩
+        unfold ecdsaVerify
         rw [hH]
-        simp only [decode_encode k.n r s sg he]
-    | err e => rw [hs] at h; cases h
-    | panic => rw [hs] at h; cases h
-    | unmodelled => rw [hs] at h; cases h
+        simp only
+        rw [C17.ecdsaVerifyDigest_eq, if_neg hck]
+        unfold ecdsaVerifyDigest
+        simp only [checkECDSADigest, Bool.true_eq_false, if_false, decode_encode k.n r s sg he]
+    | err e => rw [hsg] at h; cases h
+    | panic => rw [hsg] at h; cases h
+    | unmodelled => rw [hsg] at h; cases h
   | err e => rw [hH] at h; cases h
   | panic => rw [hH] at h; cases h
   | unmodelled => rw [hH] at h; cases h
@@ -138,18 +195,19 @@ def EcdsaCorrect (k : EcdsaKey) : Prop :=
   ∀ d r s, k.sign d = .ok (r, s) → 0 ≤ r → 0 ≤ s → k.verify d r.toNat s.toNat = true
 
 /-- `Matches` for the built-in ECDSA signer / verifier of one key, any algorithm, any hash -/
-theorem ecdsa_matches (alg : Int) (H : HashFn) (k : EcdsaKey) (hn : 0 < k.n) (hc : EcdsaCorrect k) :
-    Matches (ecdsaSigner alg H k) (ecdsaVerifier alg H k) where
+theorem ecdsa_matches (alg : Int) (H : HashFn) (hs : Option Nat) (k : EcdsaKey) (hn : 0 < k.n)
+    (hc : EcdsaCorrect k) :
+    Matches (ecdsaSigner alg H hs k) (ecdsaVerifier alg H hs k) where
   alg := rfl
   correct := by
     intro tbs sig h
-    obtain ⟨d, r, s, _, hs, hr, hs0, hv⟩ := C16.ecdsa_verify_of_sign H k tbs sig h
-    show ecdsaVerify H k tbs sig = .ok ()
+    obtain ⟨d, r, s, _, hsg, hr, hs0, hv⟩ := C16.ecdsa_verify_of_sign H hs k tbs sig h
+    show ecdsaVerify H hs k tbs sig = .ok ()
     rw [hv]
-    simp only [hc d r s hs hr hs0, if_true]
+    simp only [hc d r s hsg hr hs0, if_true]
   nonempty := by
     intro tbs sig h
-    have := (C16.ecdsa_signer_fixed_width H k tbs sig h).1
+    have := (C16.ecdsa_signer_fixed_width H hs k tbs sig h).1
     intro he
     subst he
     simp only [List.length_nil] at this
@@ -206,15 +264,17 @@ example : EcdsaCorrect exKey := by
   simp only [exKey, Out.ok.injEq, Prod.mk.injEq] at h
   obtain ⟨rfl, rfl⟩ := h
   simp [exKey]
-example : ecdsaSign (fun c => .ok c) exKey [9, 1] = .ok [0, 9, 0, 7] := by decide
+example : ecdsaSign (fun c => .ok c) (some 2) exKey [9, 1] = .ok [0, 9, 0, 7] := by decide
+example : ecdsaSign (fun c => .ok c) none exKey [9, 1] = .ok [0, 9, 0, 7] := by decide
 
 end C01
 
 namespace C17
 
 /-- message entry point = digest entry point applied to the algorithm's hash (signers) -/
-theorem ecdsa_sign_eq_signDigest (H : HashFn) (k : EcdsaKey) (content d : Bytes) (hH : H content = .ok d) :
-    ecdsaSign H k content = ecdsaSignDigest k d := by
+theorem ecdsa_sign_eq_signDigest (H : HashFn) (hs : Option Nat) (k : EcdsaKey) (content d : Bytes)
+    (hH : H content = .ok d) :
+    ecdsaSign H hs k content = ecdsaSignDigest hs k d := by
   unfold ecdsaSign; rw [hH]
 
 theorem rsa_sign_eq_signDigest (H : HashFn) (k : RsaKey) (content d : Bytes) (hH : H content = .ok d) :
@@ -224,19 +284,64 @@ theorem rsa_sign_eq_signDigest (H : HashFn) (k : RsaKey) (content d : Bytes) (hH
 /-- … and verifiers: a signature verifies through `Verify` iff it verifies through `VerifyDigest`
     under the algorithm's hash of the content — and under no other digest unless the primitive
     itself accepts that digest -/
-theorem ecdsa_verify_eq_verifyDigest (H : HashFn) (k : EcdsaKey) (content d sig : Bytes)
-    (hH : H content = .ok d) : ecdsaVerify H k content sig = ecdsaVerifyDigest k d sig := by
+theorem ecdsa_verify_eq_verifyDigest (H : HashFn) (hs : Option Nat) (k : EcdsaKey) (content d sig : Bytes)
+    (hH : H content = .ok d) : ecdsaVerify H hs k content sig = ecdsaVerifyDigest hs k d sig := by
   unfold ecdsaVerify; rw [hH]
+
+/-- `SignDigest` refuses a digest that is not of the algorithm's hash — for every key; the key's
+    `sign` does not occur in the result (the check comes first: `ecdsaSignDigest_eq`) -/
+theorem ecdsa_signDigest_wrong_size (hs : Option Nat) (n : Nat) (k : EcdsaKey) (d : Bytes)
+    (hn : hs = some n) (hl : d.length ≠ n) : ecdsaSignDigest hs k d = .err .other := by
+  rw [ecdsaSignDigest_eq, if_pos ((checkDigest_false_iff hs d).mpr ⟨n, hn, hl⟩)]
+
+/-- … so the refusal is the same for any two keys, whatever their `sign` would answer -/
+theorem ecdsa_signDigest_wrong_size_key_irrelevant (hs : Option Nat) (n : Nat) (k k' : EcdsaKey)
+    (d : Bytes) (hn : hs = some n) (hl : d.length ≠ n) :
+    ecdsaSignDigest hs k d = ecdsaSignDigest hs k' d := by
+  rw [ecdsa_signDigest_wrong_size hs n k d hn hl, ecdsa_signDigest_wrong_size hs n k' d hn hl]
+
+/-- `VerifyDigest` never accepts a digest of another hash's length: `ErrVerification` for EVERY
+    signature and every behaviour of the key's `verify` -/
+theorem ecdsa_verifyDigest_wrong_size (hs : Option Nat) (n : Nat) (k : EcdsaKey) (d sig : Bytes)
+    (hn : hs = some n) (hl : d.length ≠ n) : ecdsaVerifyDigest hs k d sig = .err .verification := by
+  rw [ecdsaVerifyDigest_eq, if_pos ((checkDigest_false_iff hs d).mpr ⟨n, hn, hl⟩)]
+
+/-- `Sign` / `Verify` are unchanged by the check when the hash produces digests of the algorithm's
+    size: they are the unchecked digest entry points (`none`) after the hash -/
+theorem ecdsa_sign_check_inert (H : HashFn) (hs : Option Nat) (hz : HashSized H hs) (k : EcdsaKey)
+    (content : Bytes) : ecdsaSign H hs k content = ecdsaSign H none k content := by
+  unfold ecdsaSign
+  cases hH : H content with
+  | ok d =>
+    simp only
+    rw [ecdsaSignDigest_eq, checkDigest_of_sized H hs hz content d hH]
+    simp only [Bool.true_eq_false, if_false]
+  | err e => rfl
+  | panic => rfl
+  | unmodelled => rfl
+
+theorem ecdsa_verify_check_inert (H : HashFn) (hs : Option Nat) (hz : HashSized H hs) (k : EcdsaKey)
+    (content sig : Bytes) : ecdsaVerify H hs k content sig = ecdsaVerify H none k content sig := by
+  unfold ecdsaVerify
+  cases hH : H content with
+  | ok d =>
+    simp only
+    rw [ecdsaVerifyDigest_eq, checkDigest_of_sized H hs hz content d hH]
+    simp only [Bool.true_eq_false, if_false]
+  | err e => rfl
+  | panic => rfl
+  | unmodelled => rfl
 
 theorem rsa_verify_eq_verifyDigest (H : HashFn) (k : RsaKey) (content d sig : Bytes)
     (hH : H content = .ok d) : rsaVerify H k content sig = rsaVerifyDigest k d sig := by
   unfold rsaVerify; rw [hH]
 
-/-- the digest entry points consult the primitive on exactly the digest they were given -/
-theorem ecdsa_verifyDigest_iff (k : EcdsaKey) (d sig : Bytes) :
-    ecdsaVerifyDigest k d sig = .ok () ↔
+/-- the unchecked core (`none`): the primitive is consulted on exactly the digest given -/
+theorem ecdsa_verifyDigest_none_iff (k : EcdsaKey) (d sig : Bytes) :
+    ecdsaVerifyDigest none k d sig = .ok () ↔
       sig.length = 2 * k.n ∧ k.verify d (os2ip (sig.take k.n)) (os2ip (sig.drop k.n)) = true := by
   unfold ecdsaVerifyDigest decodeECDSASignature
+  simp only [checkECDSADigest, Bool.true_eq_false, if_false]
   by_cases hl : sig.length ≠ k.n * 2
   · rw [if_pos hl]
     constructor
@@ -252,14 +357,65 @@ theorem ecdsa_verifyDigest_iff (k : EcdsaKey) (d sig : Bytes) :
         | true => exact absurd hb hv
       simp [hf]
 
+/-- the digest entry point accepts iff the digest is of the algorithm's hash AND the signature is
+    the fixed-width r‖s AND the primitive accepts (digest, r, s) — on exactly the digest given -/
+theorem ecdsa_verifyDigest_iff (hs : Option Nat) (k : EcdsaKey) (d sig : Bytes) :
+    ecdsaVerifyDigest hs k d sig = .ok () ↔
+      (∀ n, hs = some n → d.length = n) ∧ sig.length = 2 * k.n ∧
+        k.verify d (os2ip (sig.take k.n)) (os2ip (sig.drop k.n)) = true := by
+  rw [ecdsaVerifyDigest_eq, ← checkDigest_iff]
+  cases hc : checkECDSADigest hs d with
+  | false => simp
+  | true => simp [ecdsa_verifyDigest_none_iff]
+
+/-- the same with the decoder named: accepted ⇔ size ok ∧ the signature decodes to (r, s) ∧
+    `key.verify digest r s` -/
+theorem ecdsa_verifyDigest_iff_decode (hs : Option Nat) (k : EcdsaKey) (d sig : Bytes) :
+    ecdsaVerifyDigest hs k d sig = .ok () ↔
+      (∀ n, hs = some n → d.length = n) ∧
+        ∃ r s, decodeECDSASignature k.n sig = some (r, s) ∧ k.verify d r s = true := by
+  rw [ecdsaVerifyDigest_eq, ← checkDigest_iff]
+  cases hc : checkECDSADigest hs d with
+  | false => simp
+  | true =>
+    simp only [Bool.true_eq_false, if_false, true_and]
+    unfold ecdsaVerifyDigest
+    simp only [checkECDSADigest, Bool.true_eq_false, if_false]
+    cases hd : decodeECDSASignature k.n sig with
+    | none => simp
+    | some p =>
+      obtain ⟨r, s⟩ := p
+      by_cases hv : k.verify d r s = true
+      · simp only [hv, if_true, true_iff]
+        exact ⟨r, s, rfl, hv⟩
+      · simp only [hv]
+        constructor
+        · intro h; cases h
+        · rintro ⟨r', s', he, hv'⟩
+          simp only [Option.some.injEq, Prod.mk.injEq] at he
+          rw [← he.1, ← he.2] at hv'
+          exact absurd hv' hv
+
+/-- non-vacuity of the refusals: a key whose `verify` accepts everything and whose `sign` always
+    answers, under ES256 (`some 32`), handed a 64-byte (SHA-512 sized) digest -/
+def yesKey : EcdsaKey := { n := 2, sign := fun _ => .ok (1, 2), verify := fun _ _ _ => true }
+example : ecdsaVerifyDigest (some 32) yesKey (List.replicate 64 7) [0, 1, 0, 2] = .err .verification := by decide
+example : ecdsaSignDigest (some 32) yesKey (List.replicate 64 7) = .err .other := by decide
+/-- … while the same key, signature and call shape with a 32-byte digest is accepted / signed, and
+    without the check (`none`) the 64-byte digest would have been -/
+example : ecdsaVerifyDigest (some 32) yesKey (List.replicate 32 7) [0, 1, 0, 2] = .ok () := by decide
+example : ecdsaSignDigest (some 32) yesKey (List.replicate 32 7) = .ok [0, 1, 0, 2] := by decide
+example : ecdsaVerifyDigest none yesKey (List.replicate 64 7) [0, 1, 0, 2] = .ok () := by decide
+example : ecdsaSignDigest none yesKey (List.replicate 64 7) = .ok [0, 1, 0, 2] := by decide
+
 theorem rsa_verifyDigest_iff (k : RsaKey) (d sig : Bytes) :
     rsaVerifyDigest k d sig = .ok () ↔ k.verify d sig = true := by
   unfold rsaVerifyDigest
   by_cases hv : k.verify d sig = true <;> simp [hv]
 
 /-- the objects report the algorithm they were created for -/
-theorem builtin_reports_alg (alg : Int) (H : HashFn) (ke : EcdsaKey) (kr : RsaKey) (kd : EdKey) :
-    (ecdsaSigner alg H ke).alg = alg ∧ (ecdsaVerifier alg H ke).alg = alg ∧
+theorem builtin_reports_alg (alg : Int) (H : HashFn) (hs : Option Nat) (ke : EcdsaKey) (kr : RsaKey) (kd : EdKey) :
+    (ecdsaSigner alg H hs ke).alg = alg ∧ (ecdsaVerifier alg H hs ke).alg = alg ∧
     (rsaSigner alg H kr).alg = alg ∧ (rsaVerifier alg H kr).alg = alg ∧
     (edSigner kd).alg = -8 ∧ (edVerifier kd).alg = -8 := ⟨rfl, rfl, rfl, rfl, rfl, rfl⟩
 
@@ -267,28 +423,38 @@ end C17
 
 namespace C20
 
-/-- a failing key makes the ECDSA signer fail with the key's error -/
-theorem ecdsa_key_fault (H : HashFn) (k : EcdsaKey) (content d : Bytes) (e : Err)
-    (hH : H content = .ok d) (hk : k.sign d = .err e) : ecdsaSign H k content = .err e := by
-  unfold ecdsaSign ecdsaSignDigest; rw [hH]; simp only [hk]
+/-- a failing key makes the ECDSA signer fail with the key's error (the hash produces digests of
+    the algorithm's size, so the digest check does not pre-empt the key) -/
+theorem ecdsa_key_fault (H : HashFn) (hs : Option Nat) (hz : C17.HashSized H hs) (k : EcdsaKey)
+    (content d : Bytes) (e : Err)
+    (hH : H content = .ok d) (hk : k.sign d = .err e) : ecdsaSign H hs k content = .err e := by
+  unfold ecdsaSign ecdsaSignDigest; rw [hH]
+  simp only [hk, C17.checkDigest_of_sized H hs hz content d hH, Bool.true_eq_false, if_false]
+
+/-- `HashSized` is needed there: with a "hash" of the wrong size the digest check answers first,
+    and the key's own error is never seen -/
+example : ecdsaSign (fun c => .ok c) (some 32) { n := 2, sign := fun _ => .err .signer, verify := fun _ _ _ => true }
+    [1, 2, 3] = .err .other := by decide
 
 /-- an unavailable hash function makes every signer and verifier fail before the key is used -/
-theorem hash_fault (H : HashFn) (ke : EcdsaKey) (kr : RsaKey) (content sig : Bytes) (e : Err)
+theorem hash_fault (H : HashFn) (hs : Option Nat) (ke : EcdsaKey) (kr : RsaKey) (content sig : Bytes) (e : Err)
     (hH : H content = .err e) :
-    ecdsaSign H ke content = .err e ∧ rsaSign H kr content = .err e ∧
-    ecdsaVerify H ke content sig = .err e ∧ rsaVerify H kr content sig = .err e := by
+    ecdsaSign H hs ke content = .err e ∧ rsaSign H kr content = .err e ∧
+    ecdsaVerify H hs ke content sig = .err e ∧ rsaVerify H kr content sig = .err e := by
   unfold ecdsaSign rsaSign ecdsaVerify rsaVerify
   simp only [hH, and_self]
 
 /-- an (r, s) that does not fit the fixed width (negative, or ≥ 256^n) is an error, never a
     truncated or differently shaped signature -/
-theorem ecdsa_unencodable_fault (H : HashFn) (k : EcdsaKey) (content d : Bytes) (r s : Int)
+theorem ecdsa_unencodable_fault (H : HashFn) (hs : Option Nat) (k : EcdsaKey) (content d : Bytes) (r s : Int)
     (hH : H content = .ok d) (hk : k.sign d = .ok (r, s))
     (hbad : r < 0 ∨ s < 0 ∨ 256 ^ k.n ≤ r.toNat ∨ 256 ^ k.n ≤ s.toNat) :
-    ecdsaSign H k content = .err .other := by
+    ecdsaSign H hs k content = .err .other := by
   unfold ecdsaSign ecdsaSignDigest
   rw [hH]
   simp only [hk]
+  split
+  · rfl
   cases he : encodeECDSASignature k.n r s with
   | none => rfl
   | some sg =>
@@ -305,13 +471,15 @@ namespace C03
 
 /-- the built-in verifiers never turn a refusal of the primitive into success, whatever else
     the signature bytes are: ECDSA -/
-theorem ecdsa_refused_by_primitive (H : HashFn) (k : EcdsaKey) (content d sig : Bytes)
+theorem ecdsa_refused_by_primitive (H : HashFn) (hs : Option Nat) (k : EcdsaKey) (content d sig : Bytes)
     (hH : H content = .ok d)
     (hv : k.verify d (os2ip (sig.take k.n)) (os2ip (sig.drop k.n)) = false) :
-    ecdsaVerify H k content sig = .err .verification := by
-  have h1 := C17.ecdsa_verify_eq_verifyDigest H k content d sig hH
+    ecdsaVerify H hs k content sig = .err .verification := by
+  have h1 := C17.ecdsa_verify_eq_verifyDigest H hs k content d sig hH
   rw [h1]
   unfold ecdsaVerifyDigest decodeECDSASignature
+  split
+  · rfl
   by_cases hl : sig.length ≠ k.n * 2
   · rw [if_pos hl]
   · rw [if_neg hl]
